@@ -68,3 +68,46 @@ def run(name, gen, cmd, trace, tier, seed, ctxs=CTXS, maxnodes=None, extra_cfg=N
     stats.pop("tagged", None)
     stats["wall"] = time.time() - t0
     return {"verdicts": verdicts, "stats": stats, "wd": wd}
+
+
+def run_single(name, gen, gen_cfg_lines, cmd, trace, tier, seed, count_event=None, sample_event=None, trace_env=None,
+               gen_defs=(), trace_workers=12, sample_mod=97):
+    """context-free pipeline: one Gen run, one harness run, one Trace run"""
+    wd = workdir(name + "_" + tier)
+    build_harness()
+    t0 = time.time()
+    mname = gen + "_run"
+    write_module(wd, mname, gen, list(gen_defs), list(gen_cfg_lines))
+    cases = os.path.join(wd, "cases.ndjson")
+    r = tlc(wd, mname, mname + ".cfg", env={"OUT": cases}, workers=1, heap="8g", timeout=3000)
+    g = r.tagged("GEN")
+    if not g or not os.path.exists(cases):
+        log(r.out[-3000:])
+        raise ToolError("%s failed" % gen)
+    log("%s: %s (%.1fs)" % (gen, g[0][1:], r.secs))
+    stats = {"events": 0, "states": 0, "transitions": 0, "samples": [], "nontrivial": 0, "evaluations": 0, "gen": g[0][1:]}
+    obs = os.path.join(wd, "obs.ndjson")
+    run_harness(cmd, cases, obs, env_extra={"VERIF_SEED": str(seed), "VERIF_TIER": tier})
+    nev = 0
+    with open(obs) as f:
+        for k, ln in enumerate(f):
+            e = json.loads(ln)
+            nev += 1
+            if count_event:
+                count_event(e, stats)
+            if sample_event and len(stats["samples"]) < 8 and k % sample_mod == 3:
+                s = sample_event(e)
+                if s is not None:
+                    stats["samples"].append(s)
+    r = tlc(wd, trace, trace + ".cfg", env=dict({"TRACE": obs}, **(trace_env or {})), workers=trace_workers, heap="12g", timeout=3300)
+    done = r.tagged("TRACE_DONE")
+    if not r.ok or not done or done[0][1] != nev or done[0][2] < nev + 1:
+        log(r.out[-4000:])
+        raise ToolError("%s did not complete" % trace)
+    verdicts = [{"prop": v[1], "clause": v[2], "event": v[3], "j": v[4], "detail": v[5], "ctx": name, "obs": obs} for v in r.tagged("VERDICT")]
+    stats["events"] = nev
+    stats["states"] = r.distinct
+    stats["transitions"] = r.generated
+    stats["wall"] = time.time() - t0
+    log("%s: %d events, %d verdict lines (%.1fs)" % (trace, nev, len(verdicts), r.secs))
+    return {"verdicts": verdicts, "stats": stats, "wd": wd}
